@@ -59,7 +59,7 @@ def run(tier: str) -> int:
     rep = core.Report("X01", tier)
     rep.evid_dir = os.path.join(core.ROOT, "evidence_extra")
     # 1. design: vote laws, soundness of the recorded behaviour, agreement with the intended reading outside the named deviations
-    r = tlc.run("MC_Meta", "INIT Init\nNEXT Next\nINVARIANT Laws\nINVARIANT Sound\nINVARIANT Identity\nINVARIANT Arity\nINVARIANT Emit\n", workers=8, heap="4g")
+    r = tlc.run("MC_Meta", "INIT Init\nNEXT Next\nINVARIANT Laws\nINVARIANT Sound\nINVARIANT Identity\nINVARIANT Arity\nINVARIANT Frames\nINVARIANT Emit\n", workers=8, heap="4g")
     rep.add_tlc(r)
     if r.violation or not r.ok:
         raise core.MachineryError(f"PT_Meta violates {r.violation} (spec bug)\n{r.raw_tail[-1200:]}")
@@ -106,6 +106,36 @@ def run(tier: str) -> int:
                     st, ids = type(ex).__name__, []
                 events.append({"tid": len(events), "kind": "custom", "tree": {"k": "num", "n": "0"}, "obs": "", "parts": [declared, given], "st": st, "ids": ids})
                 meta.append(("custom", {"declared": declared, "given": given, "alias": alias}))
+    # 1a''. window frames (PT_Meta!WindowCall): every window shape x (no frame | every frame of the bound set, by rows() or range() | two frames)
+    from pypika_tortoise import analytics as an
+
+    def edge(b):
+        return an.CURRENT_ROW if b == ["C"] else (an.Preceding if b[0] == "P" else an.Following)(None if b[1] < 0 else b[1])
+
+    bounds = [["C"]] + [[s_, n] for s_ in ("P", "F") for n in (-1, 0, 1, 7)]
+    all_frames = [{"unit": u, "lo": lo, "hi": hi} for u in ("ROWS", "RANGE") for lo in bounds for hi in bounds + [[]]]
+    n_window = 0
+    for fn_name, mkfn in (("SUM", lambda: an.Sum(t1.a)), ("FIRST_VALUE", lambda: an.FirstValue(t1.a)), ("LAST_VALUE", lambda: an.LastValue(t1.a).ignore_nulls())):
+        for has_over in (False, True):
+            for has_ord in (False, True):
+                fsets = [[]] + [[f] for f in all_frames] + [[f, g] for f in all_frames[::17] for g in all_frames[::23]]
+                for frames in fsets:
+                    try:
+                        term = mkfn()
+                        if has_over:
+                            term = term.over(t1.b)
+                        if has_ord:
+                            term = term.orderby(t1.c)
+                        for f in frames:
+                            term = getattr(term, f["unit"].lower())(edge(f["lo"]), *([edge(f["hi"])] if f["hi"] else []))
+                        toks = lexer.lex(term.get_sql(ctx), "sqlite")
+                        close = next(k for k, tk in enumerate(toks) if tk["t"] == "punct" and tk["v"] == ")" and tk["d"] == 0)
+                        st, ids = "ok", [tk["v"] for tk in toks[close + 1:] if tk["t"] in ("word", "num")]
+                    except Exception as ex:  # noqa
+                        st, ids = type(ex).__name__, []
+                    n_window += 1
+                    events.append({"tid": len(events), "kind": "window", "over": has_over, "ord": has_ord, "frames": frames, "st": st, "ids": ids})
+                    meta.append(("window", {"function": fn_name, "over": has_over, "orderby": has_ord, "frames": frames}))
     # 1b. render paths: every catalogue statement (seed, and seed + one call) through str / repr / get_sql() / get_sql(class context)
     import hashlib
 
@@ -140,7 +170,10 @@ def run(tier: str) -> int:
         for v in res.json_tagged("V"):
             kind, what = meta[v["tid"]]
             e = events[v["tid"]]
-            if kind == "custom":
+            if kind == "window":
+                rep.discrepancy([["window-frame", what["function"], what["over"], what["orderby"], len(what["frames"])]], dict(what, recorded_outcome=v["want"], observed=e["st"], tokens=e["ids"]),
+                                what="the window clause differs from the recorded frame rule")
+            elif kind == "custom":
                 rep.discrepancy([["custom-function", what["declared"], what["given"]]], dict(what, recorded_outcome=v["want"], observed=e["st"], arguments_rendered=e["ids"]),
                                 what="CustomFunction call differs from the recorded arity rule")
             elif kind == "paths":
@@ -231,7 +264,7 @@ def run(tier: str) -> int:
     rep.traces = len(events) + n_mut + len(sel_events)
     rep.evaluations = rep.traces
     rep.distinct = {json.dumps(m[1], sort_keys=True) for m in meta}
-    rep.extra.update({"select_list_programs": len(sel_events), "render_path_statements": n_paths, "is_aggregate_trees": len(trees), "empty_criterion_folds": 2 * len(folds), "mutable_mode_chains": n_mut,
+    rep.extra.update({"select_list_programs": len(sel_events), "render_path_statements": n_paths, "window_frame_calls": n_window, "is_aggregate_trees": len(trees), "empty_criterion_folds": 2 * len(folds), "mutable_mode_chains": n_mut,
                       "mutable_model_states": rm.distinct})
     rep.sample({"tree": trees[0], "is_aggregate": events[0]["obs"]})
     rep.rule = ("behaviours outside the property list: is_aggregate of every tree of MC_Meta (depth <= 2 over leaves of every vote) vs PT_Meta!IsAgg; "
